@@ -1,13 +1,15 @@
 #!/usr/bin/env python3
 """
-Kernel extraction (DESIGN.md §2.4): reads four arithmetic kernels from /repo's *current* source with
+Kernel extraction (DESIGN.md §2.4): reads seven arithmetic kernels from /repo's *current* source with
 `ast` and regenerates lean/VK/Model/Generated.lean. VK/Props/Kernels.lean proves each generated
 definition equal to the corresponding definition of the hand-written model, so a change of one of
 these expressions in the source breaks a proof obligation at `lake build` (before any sampling).
 
 Kernels:  STV.get_threshold (droop, hare) · fractional_transfer's transfer_value ·
-          BoostedRandomDictator's branch threshold.
-Accepted expression subset: integer constants, the names listed in ENV, + - * /, len(x), unary minus.
+          BoostedRandomDictator's branch threshold · the two acceptance probabilities of the slate-BT
+          MCMC chain · the acceptance probability of the name-BT MCMC chain.
+Accepted expression subset: integer constants, the names listed in ENV, + - * /, len(x), unary minus,
+min(a, b), `a if x <cmp> y else b`, and pref_interval[...] lookups by the swap index they mention.
 If a kernel cannot be located or translated the previous Generated.lean is kept and the reason is
 printed (exit code 3): the correspondence check then carries that kernel alone.
 """
@@ -32,6 +34,18 @@ def tr(node, env):
     if isinstance(node, ast.Call) and isinstance(node.func, ast.Name) and node.func.id == "len" and len(node.args) == 1 \
             and isinstance(node.args[0], ast.Name) and ("len:" + node.args[0].id) in env:
         return env["len:" + node.args[0].id]
+    if isinstance(node, ast.Call) and isinstance(node.func, ast.Name) and node.func.id == "min" and len(node.args) == 2:
+        return f"(rmin2 {tr(node.args[0], env)} {tr(node.args[1], env)})"
+    if isinstance(node, ast.IfExp) and isinstance(node.test, ast.Compare) and len(node.test.ops) == 1:
+        cmp = {ast.Gt: ">", ast.Lt: "<", ast.GtE: "≥", ast.LtE: "≤", ast.Eq: "=", ast.NotEq: "≠"}
+        for k, v in cmp.items():
+            if isinstance(node.test.ops[0], k):
+                return (f"(if {tr(node.test.left, env)} {v} {tr(node.test.comparators[0], env)} "
+                        f"then {tr(node.body, env)} else {tr(node.orelse, env)})")
+    if isinstance(node, ast.Subscript) and "subscript" in env:
+        key = env["subscript"](node)
+        if key is not None:
+            return key
     if isinstance(node, ast.UnaryOp) and isinstance(node.op, ast.USub):
         return f"(-{tr(node.operand, env)})"
     if isinstance(node, ast.BinOp):
@@ -95,6 +109,33 @@ def main():
         if br is None:
             raise Untranslatable("boosted branch comparison `u <= ...` not found")
         brs = tr(br, {"len:remaining_cands": "(n : Rat)"})
+        bg = ast.parse(open(os.path.join(src, "ballot_generator.py")).read())
+        # slate_BradleyTerry._sample_ballot_types_MCMC: the two acceptance probabilities, in source order
+        sm = find_func(bg, "slate_BradleyTerry", "_sample_ballot_types_MCMC")
+        acc = [n.value for n in ast.walk(sm) if isinstance(n, ast.Assign) and len(n.targets) == 1
+               and isinstance(n.targets[0], ast.Name) and n.targets[0].id == "acceptance_prob"
+               and not isinstance(n.value, ast.Constant)]
+        acc.sort(key=lambda v: v.lineno)
+        if len(acc) != 2:
+            raise Untranslatable(f"expected two non-constant acceptance_prob assignments in slate MCMC, found {len(acc)}")
+        sdown = tr(acc[0], {"cohesion": "c"})
+        sup = tr(acc[1], {"cohesion": "c"})
+        # name_BradleyTerry._BT_mcmc: min(1, x[second] / x[first])
+        bm = find_func(bg, "name_BradleyTerry", "_BT_mcmc")
+        bacc = [n.value for n in ast.walk(bm) if isinstance(n, ast.Assign) and len(n.targets) == 1
+                and isinstance(n.targets[0], ast.Name) and n.targets[0].id == "acceptance_prob"]
+        if len(bacc) != 1:
+            raise Untranslatable("acceptance_prob assignment in _BT_mcmc not found")
+
+        def sub(node):
+            if isinstance(node.value, ast.Name) and node.value.id == "pref_interval":
+                names = {n.id for n in ast.walk(node.slice) if isinstance(n, ast.Name)}
+                if "j1" in names and "j2" not in names:
+                    return "x1"
+                if "j2" in names and "j1" not in names:
+                    return "x2"
+            return None
+        bts = tr(bacc[0], {"subscript": sub})
     except (Untranslatable, KeyError, OSError, SyntaxError) as e:
         print(f"kernel extraction fell back to the committed Generated.lean: {type(e).__name__}: {e}")
         return 3
@@ -103,6 +144,9 @@ def main():
   int(x) on a non-negative rational is the floor (trusted: CPython's int() truncation).
 -/
 namespace VK.Generated
+
+/-- Python's `min` on two numbers -/
+def rmin2 (a b : Rat) : Rat := if a ≤ b then a else b
 
 /-- `STV.get_threshold`, quota == "droop": `int({ast.unparse(rets['droop'])})` -/
 def thresholdDroop (m : Nat) (N : Rat) : Int := ({droop}).floor
@@ -115,6 +159,17 @@ def transferValue (fpv : Rat) (threshold : Int) : Rat := {tvs}
 
 /-- `BoostedRandomDictator._run_step`: the squares branch is taken when `u <= {ast.unparse(br)}` -/
 def boostedBranch (n : Nat) : Rat := {brs}
+
+/-- `slate_BradleyTerry._sample_ballot_types_MCMC`, swap that moves the bloc's own slate down:
+`{ast.unparse(acc[0])}` -/
+def slateAcceptDown (c : Rat) : Rat := {sdown}
+
+/-- the swap that moves the bloc's own slate up: `{ast.unparse(acc[1])}` -/
+def slateAcceptUp (c : Rat) : Rat := {sup}
+
+/-- `name_BradleyTerry._BT_mcmc`: `{' '.join(ast.unparse(bacc[0]).split())}` with x1 = support of the
+candidate at j1 (currently above), x2 = support of the candidate at j2 -/
+def btAccept (x1 x2 : Rat) : Rat := {bts}
 
 end VK.Generated
 """
